@@ -65,7 +65,7 @@ CLAIMED = {
     },
     "C13": {
         "category": "exploration",
-        "text": "Generated class programs (static hierarchies to depth 3, differing field orders, super chains, classes created and dropped at run time with fresh subclasses, fields shadowing methods, shadow/unshadow flips, shared call/get/set/compound-assign/bound-method sites, the same receivers through a second module's sites, a launch of the other module's function directly followed by a site, calls with the wrong number of arguments repeated at one site, a class factory (one super site evaluated with different superclasses), modules with more than 256 sites of each kind, garbage and class churn between uses; a third of the programs entered line by line at the prompt) executed twice under the same seeded GC schedule and address policy (70% with address reuse): caches enabled vs every lookup forced to miss. Outputs, exit and host failures must agree; each site's result is also checked against what the program's construction prescribes.",
+        "text": "Generated class programs (static hierarchies to depth 3, differing field orders, super chains, classes created and dropped at run time with fresh subclasses, fields shadowing methods, shadow/unshadow flips, shared call/get/set/compound-assign/bound-method sites, the same receivers through a second module's sites, a launch of the other module's function directly followed by a site, calls with the wrong number of arguments repeated at one site, a class factory (one super site evaluated with different superclasses), modules with more than 256 sites of each kind, a field of another object read through self.<field>.<name>, subclasses whose init assigns an inherited field again before adding one of their own, at the prompt a module that fails to compile imported before everything else, garbage and class churn between uses; a third of the programs entered line by line at the prompt) executed twice under the same seeded GC schedule and address policy (70% with address reuse): caches enabled vs every lookup forced to miss. Outputs, exit and host failures must agree; each site's result is also checked against what the program's construction prescribes.",
         "design_ref": "DESIGN.md section 3 C13",
         "note": "The forced-miss execution is the specification (hook returns 'miss' before the lookup; fills still happen).",
         "technique": "deterministic simulation: cache-enabled vs forced-miss execution under seeded GC schedules with eager address reuse",
